@@ -25,33 +25,45 @@ def _fn(ctx):
     except AnalysisError:
         return fn
     cols = _row_columns(fn, outer)
-    if cols and isinstance(inner.target, ast.Tuple) and len(inner.target.elts) == len(cols):
+    if cols and "?" not in cols and len(_flat_names(inner.target)) == len(cols):
         def at(k):
-            return lambda n, v, st: isinstance(st, ast.For) and isinstance(st.iter, ast.Call) and call_name(st.iter) in ("itertuples", "iterrows") and \
-                isinstance(st.target, ast.Tuple) and k < len(st.target.elts) and isinstance(st.target.elts[k], ast.Name) and st.target.elts[k].id == n
+            return lambda n, v, st: isinstance(st, ast.For) and _itertuples_call(st.iter) is not None and \
+                k < len(_flat_names(st.target)) and _flat_names(st.target)[k] == n
         fn = with_roles(fn, tuple((c, at(k)) for k, c in enumerate(cols)))
     return fn
 
 
 def _row_columns(fn, outer) -> List[str]:
-    """columns of the per-column frame in order: the projected ones plus those added inside the per-column loop"""
+    """what the flattened row variables receive, in order: the projected frame columns, the columns added to the frame (or to the
+    group) before the rows are taken, and one pseudo-column 'diff' for a gap Series zipped with the rows"""
     proj = None
     for n in walk_no_nested(fn.node):
         if isinstance(n, ast.Subscript) and isinstance(n.value, ast.Attribute) and n.value.attr == "loc" and \
                 isinstance(n.slice, ast.Tuple) and len(n.slice.elts) == 2 and isinstance(n.slice.elts[1], ast.List):
             proj = [e.value for e in n.slice.elts[1].elts if isinstance(e, ast.Constant)]
-    added = [n.targets[0].slice.value for n in ast.walk(outer) if isinstance(n, ast.Assign) and
-             isinstance(n.targets[0], ast.Subscript) and isinstance(n.targets[0].slice, ast.Constant) and
-             isinstance(n.targets[0].value, ast.Name) and isinstance(outer.target, ast.Tuple) and
-             n.targets[0].value.id == getattr(outer.target.elts[-1], "id", None)]
-    return (proj or []) + added if proj is not None else []
+    if proj is None:
+        return []
+    try:
+        _, inner = _row_loop(fn)
+    except AnalysisError:
+        return []
+    added = [nm for kind, nm, n in _gap_sources(fn) if kind == "column" and n.lineno < inner.lineno]
+    it = inner.iter
+    zipped = []
+    if isinstance(it, ast.Call) and call_name(it) == "zip":
+        for a in it.args[1:]:
+            if isinstance(a, ast.Name) and any(kind == "series" and nm == a.id for kind, nm, _ in _gap_sources(fn)):
+                zipped.append("diff")
+            else:
+                zipped.append("?")
+    return proj + added + zipped
 
 
 def _row_paths(inner: ast.For):
     """paths through the per-row body, tests and appended notes written over the row's inputs (sa/sympaths.py)"""
     from .. import sympaths as SP
     # the row values come out of numeric columns (NaN marks "no length" / "no next note"): none of them is None
-    rowvars = [t.id for t in inner.target.elts if isinstance(t, ast.Name)] if isinstance(inner.target, ast.Tuple) else []
+    rowvars = [x for x in _flat_names(inner.target) if x != "*"]
     return SP.enumerate_paths(inner.body, not_none=rowvars)
 
 
@@ -107,15 +119,45 @@ def _note_fields(call: ast.Call):
     return SP.dict_items(call.args[0]) if call.args else None
 
 
+def _itertuples_call(e) -> Optional[ast.Call]:
+    for x in ast.walk(e):
+        if isinstance(x, ast.Call) and call_name(x) in ("itertuples", "iterrows"):
+            return x
+    return None
+
+
 def _row_loop(fn) -> Tuple[ast.For, ast.For]:
-    """(outer loop over column groups, inner loop over rows)"""
+    """(loop over the column groups, loop over the rows).  The row loop is the one whose iterable yields the rows of a frame through
+    itertuples — directly, zipped with a parallel Series, or chained over the groups (then there is no separate group loop and the
+    row loop is returned for both)"""
+    fors = sorted((n for n in walk_no_nested(fn.node) if isinstance(n, ast.For)), key=lambda n: n.lineno)
+    inner = next((n for n in fors if _itertuples_call(n.iter) is not None), None)
+    if inner is None:
+        raise AnalysisError("full_ln: per-column / per-row loops not found")
+    outer = next((n for n in fors if n is not inner and any(x is inner for x in ast.walk(n))), None)
+    return (outer or inner), inner
+
+
+def _flat_names(t) -> List[str]:
+    if isinstance(t, ast.Name):
+        return [t.id]
+    if isinstance(t, (ast.Tuple, ast.List)):
+        return [x for e in t.elts for x in _flat_names(e)]
+    return ["*"]
+
+
+def _gap_sources(fn) -> List[Tuple[str, ast.AST, ast.AST]]:
+    """where the gap to the next note of the column is computed: ('column', name, expr) for a frame column store F["name"] = expr,
+    ('series', name, expr) for a local Series zipped with the rows"""
+    out = []
     for n in walk_no_nested(fn.node):
-        if isinstance(n, ast.For):
-            for m in ast.walk(n):
-                if m is not n and isinstance(m, ast.For) and isinstance(m.iter, ast.Call) and call_name(m.iter) in (
-                        "itertuples", "iterrows"):
-                    return n, m
-    raise AnalysisError("full_ln: per-column / per-row loops not found")
+        if isinstance(n, ast.Assign) and len(n.targets) == 1 and any(isinstance(x, ast.Call) and call_name(x) == "shift" for x in ast.walk(n.value)):
+            t = n.targets[0]
+            if isinstance(t, ast.Subscript) and isinstance(t.slice, ast.Constant) and isinstance(t.value, ast.Name):
+                out.append(("column", t.slice.value, n))
+            elif isinstance(t, ast.Name):
+                out.append(("series", t.id, n))
+    return out
 
 
 def _branch_paths(body: List[ast.stmt], conds=()) -> List[Tuple[tuple, List[ast.stmt], str]]:
@@ -164,19 +206,11 @@ def rule_r1(ctx) -> List[R.Inst]:
     outer, inner = _row_loop(fn)
     insts = []
     # row variables: positional unpack must match the projected columns (+ the added gap column)
-    proj = None
-    for n in walk_no_nested(fn.node):
-        if isinstance(n, ast.Subscript) and isinstance(n.value, ast.Attribute) and n.value.attr == "loc" and \
-                isinstance(n.slice, ast.Tuple) and len(n.slice.elts) == 2 and isinstance(n.slice.elts[1], ast.List):
-            proj = [e.value for e in n.slice.elts[1].elts if isinstance(e, ast.Constant)]
-    added = [n.targets[0].slice.value for n in ast.walk(outer) if isinstance(n, ast.Assign) and
-             isinstance(n.targets[0], ast.Subscript) and isinstance(n.targets[0].slice, ast.Constant) and
-             isinstance(n.targets[0].value, ast.Name) and isinstance(outer.target, ast.Tuple) and
-             n.targets[0].value.id == getattr(outer.target.elts[-1], "id", None)]
-    names = [t.id for t in inner.target.elts] if isinstance(inner.target, ast.Tuple) else []
-    idx_false = any(k.arg == "index" and isinstance(k.value, ast.Constant) and k.value.value is False for k in inner.iter.keywords)
-    cols = (proj or []) + added
-    if proj is None or not names:
+    cols = _row_columns(fn, outer)
+    names = _flat_names(inner.target)
+    itc = _itertuples_call(inner.iter)
+    idx_false = any(k.arg == "index" and isinstance(k.value, ast.Constant) and k.value.value is False for k in itc.keywords)
+    if not cols or not names or "?" in cols:
         insts.append(R.undec(rid, "row-unpack", file, inner.lineno, "projection / row unpacking not recognised"))
     elif names == cols and idx_false:
         insts.append(R.ok(rid, "row-unpack", file, inner.lineno, idiom=f"rows unpacked as {names} = projected columns + added"))
@@ -187,7 +221,7 @@ def rule_r1(ctx) -> List[R.Inst]:
                             construct=f"{names} vs {cols}"))
     # every column group reaches the per-row loop: no early exit from the per-column body before it
     pre = []
-    for st in outer.body:
+    for st in (outer.body if outer is not inner else []):
         if st is inner or any(x is inner for x in ast.walk(st)):
             break
         pre.append(st)
@@ -270,9 +304,21 @@ def rule_r2(ctx) -> List[R.Inst]:
     else:
         chain = []
         e = grp
-        while isinstance(e, ast.Call) and isinstance(e.func, ast.Attribute):
-            chain.insert(0, e)
-            e = e.func.value
+        for _ in range(4):
+            while isinstance(e, (ast.Call, ast.Subscript)) and (isinstance(e, ast.Subscript) or isinstance(e.func, ast.Attribute)):
+                if isinstance(e, ast.Subscript):
+                    e = e.value.value if isinstance(e.value, ast.Attribute) and e.value.attr in ("loc", "iloc") else e.value
+                    continue
+                chain.insert(0, e)
+                e = e.func.value
+            # the grouped frame through a name: the last binding of it before the groupby
+            if isinstance(e, ast.Name):
+                ds = sorted((x for x in walk_no_nested(fn.node) if isinstance(x, ast.Assign) and len(x.targets) == 1 and
+                             isinstance(x.targets[0], ast.Name) and x.targets[0].id == e.id and x.lineno < grp.lineno), key=lambda x: x.lineno)
+                if ds:
+                    e = ds[-1].value
+                    continue
+            break
         names = [c.func.attr for c in chain]
         gkey = unparse(grp.args[0]).strip("'\"[]") if grp.args else ""
         srt = [c for c in chain if c.func.attr == "sort_values"]
@@ -286,29 +332,23 @@ def rule_r2(ctx) -> List[R.Inst]:
                                 f"{' descending' if desc else ''}, group key '{gkey}'): 'next note of the column' is otherwise "
                                 f"not the next row", construct=" . ".join(names) + f" sort={skey} group={gkey}"))
     # (b) gap to next = diff().shift(-1) of the offset
-    d = [n for n in ast.walk(outer) if isinstance(n, ast.Assign) and isinstance(n.targets[0], ast.Subscript) and
-         isinstance(n.targets[0].slice, ast.Constant) and n.targets[0].slice.value == "diff"]
+    d = [n for kind, nm, n in _gap_sources(fn) if (kind == "column" and nm == "diff") or kind == "series"]
     if len(d) != 1:
         insts.append(R.undec(rid, "gap-to-next", file, outer.lineno, "computation of the gap to the next note not found"))
     else:
         v = d[0].value
-        chain = []
-        e = v
-        while isinstance(e, ast.Call) and isinstance(e.func, ast.Attribute):
-            chain.insert(0, e)
-            e = e.func.value
-        sig = [(c.func.attr, [unparse(a) for a in c.args] + [f"{k.arg}={unparse(k.value)}" for k in c.keywords]) for c in chain]
-        base = unparse(e).replace('"', "'")
-        # symbolic index algebra: diff() -> x[i]-x[i-1]; shift(-1) -> value at i+1  => x[i+1]-x[i]
-        good = sig == [("diff", []), ("shift", ["-1"])] and base.endswith("['offset']")
-        alt = sig == [("shift", ["-1"])] and False
-        # equivalent: x.shift(-1) - x
-        if isinstance(v, ast.BinOp) and isinstance(v.op, ast.Sub):
-            l, r = unparse(v.left).replace('"', "'"), unparse(v.right).replace('"', "'")
-            good = l.endswith("['offset'].shift(-1)") and r.endswith("['offset']") and l.startswith(r)
-        if good:
-            insts.append(R.ok(rid, "gap-to-next", file, d[0].lineno, idiom="offset.diff().shift(-1) = next offset - own offset"))
-        elif [s[0] for s in sig] and set(s[0] for s in sig) <= {"diff", "shift"}:
+        t_ = unparse(v).replace('"', "'").replace(" ", "")
+        import re as _re
+        # per-group form: G['offset'].diff().shift(-1)  (or G['offset'].shift(-1) - G['offset'])
+        f1 = _re.fullmatch(r"(\w+)\['offset'\]\.diff\(\)\.shift\(-1\)", t_) or \
+            (lambda m_: m_ if m_ and m_.group(1) == m_.group(2) else None)(_re.fullmatch(r"(\w+)\['offset'\]\.shift\(-1\)-(\w+)\['offset'\]", t_))
+        # whole-frame form: F.groupby('column')['offset'].shift(-1) - F['offset']
+        f2 = (lambda m_: m_ if m_ and m_.group(1) == m_.group(2) else None)(
+            _re.fullmatch(r"(\w+)\.groupby\('column'\)\['offset'\]\.shift\(-1\)-(\w+)\['offset'\]", t_))
+        ops_ = {x.func.attr for x in ast.walk(v) if isinstance(x, ast.Call) and isinstance(x.func, ast.Attribute)}
+        if f1 or f2:
+            insts.append(R.ok(rid, "gap-to-next", file, d[0].lineno, idiom="next offset of the same column - own offset (diff().shift(-1) / shift(-1) - offset)"))
+        elif ops_ and ops_ <= {"diff", "shift", "groupby"}:
             insts.append(R.viol(rid, "gap-to-next", file, d[0].lineno,
                                 f"the gap must be (next note's time - own time) = diff().shift(-1); found {unparse(v)}",
                                 construct=unparse(v)))
